@@ -88,7 +88,17 @@ bool exec_gen(ExecCtx &c) {
       with_gen_order(op.b, [&](auto K) {
         constexpr size_t k = decltype(K)::value;
         std::optional<std::vector<Sp<k>>> res;
-        libcall(out, [&] { res.emplace(g->template generateBSplines<k>()); });
+        if (op.a % 5 == 4) {
+          // the convenience function: builds its own generator from the knots
+          std::vector<T> knots;
+          {
+            sim::Exempt e;
+            knots = make_knots(g->getGrid(), op.d);
+          }
+          libcall(out, [&] { res.emplace(bspline::generateBSplines<k>(knots)); });
+        } else {
+          libcall(out, [&] { res.emplace(g->template generateBSplines<k>()); });
+        }
         if (res) {
           {
             sim::Exempt e;
@@ -238,10 +248,26 @@ bool exec_interp(ExecCtx &c) {
   }
   auto run = [&](auto K) {
     constexpr size_t k = decltype(K)::value;
+    namespace ip = bspline::interpolation;
     std::optional<Sp<k>> res;
+    // boundary conditions: default, or k-1 caller-chosen ones (occasionally an
+    // inadmissible derivative order: a failing call after the solver exists)
+    std::array<ip::Boundary<T>, k - 1> bounds = ip::internal::defaultBoundaries<T, k>();
+    bool custom = (op.c / 4) % 3 != 0;
+    if (custom) {
+      sim::Exempt e;
+      sim::Rng r(sim::mix3(op.c, 0xb0d, op.d));
+      for (size_t i = 0; i + 1 < k; i++) {
+        bounds[i].node = r.below(2) ? ip::Node::FIRST : ip::Node::LAST;
+        bounds[i].derivative = 1 + r.below((uint32_t)k);
+        if (r.below(16) == 0) bounds[i].derivative = r.below(2) ? 0 : k + 1;
+        bounds[i].value = scalar_choice(r.below(12));
+      }
+    }
     libcall(out, [&] {
       try {
-        res.emplace(bspline::interpolation::interpolate<T, k, SimSolver>(*sup, y));
+        if (custom) res.emplace(ip::interpolate<T, k, SimSolver>(*sup, y, bounds));
+        else res.emplace(ip::interpolate<T, k, SimSolver>(*sup, y));
       } catch (const SolverSingular &) {
         throw sim::CallbackFault();
       }
